@@ -2,8 +2,10 @@
 use crate::Prop;
 
 pub mod c08;
+pub mod diag;
 pub mod meta;
 pub mod modelprog;
+pub mod renum;
 pub mod robust;
 pub mod store;
 
@@ -20,6 +22,8 @@ pub fn make(id: &str) -> Option<Box<dyn Prop>> {
         "C05" => Some(Box::new(store::C05)),
         "C03" => Some(Box::new(robust::C03)),
         "C18" => Some(Box::new(robust::C18)),
+        "C14" => Some(Box::new(renum::C14)),
+        "C19" => Some(Box::new(diag::C19)),
         "C08" => Some(Box::new(c08::C08::new())),
         _ => None,
     }
